@@ -34,17 +34,16 @@ OBLIGATIONS = [
     "SkVerif.C08.cv_row_eq_independent_evaluate",
     "SkVerif.C08.row_mean_is_arithmetic_mean",
     "SkVerif.C08.selection_follows_ranking_direction",
-    "SkVerif.C08.best_in_declared_direction_partial",
-    "SkVerif.C08.rank_direction_ignores_metric",
-    "SkVerif.C08.best_is_lowest_as_coded",
-    "SkVerif.C08.best_is_max_for_score_fails",
+    "SkVerif.C08.best_is_min_for_loss",
+    "SkVerif.C08.best_is_max_for_score",
+    "SkVerif.C08.best_in_declared_direction",
     "SkVerif.C08.ties_first",
     "SkVerif.C08.best_params_index_score_consistent",
     "SkVerif.C08.fit_refits_best_on_all_data",
-    "SkVerif.C08.refit_delegation_bisim_partial",
-    "SkVerif.C08.refit_delegation_default_update_fails",
-    "SkVerif.C08.no_refit_raises_NotFitted_partial",
-    "SkVerif.C08.no_refit_cutoff_does_not_raise",
+    "SkVerif.C08.tuner_call_forwarded_unchanged",
+    "SkVerif.C08.refit_delegation_bisim",
+    "SkVerif.C08.tuner_call_named",
+    "SkVerif.C08.no_refit_raises_NotFitted",
     "SkVerif.C08.unfitted_tuner_raises_NotFitted",
     "SkVerif.C08.failed_fit_leaves_unfitted",
 ]
@@ -65,8 +64,9 @@ LEVEL_TEXT = ("Lean 4 theorems, for all candidate lists / grids, score functions
               "call sequences, about an executable model of _tune.py: the grid enumerates every combination once, every candidate is evaluated on the tuner's cv "
               "and series, each cv_results_ row is the mean of that candidate's evaluate() scores, the reported best is the lowest mean for losses (first among ties), "
               "best index/params/score belong to one row, a refitted tuner is bisimilar to a forecaster built with the best parameters and fitted on all data, "
-              "without refit guarded methods raise NotFittedError. Three clauses fail for the code as it stands (greater-is-better metrics select the lowest score; "
-              "cutoff ignores refit=False; update_params defaults differ): kept as _partial theorems with machine-checked negation witnesses and listed as known findings. "
+              "without refit every method of the tuner (cutoff included) raises NotFittedError. Three clauses failed for the code as first checked "
+              "(greater-is-better metrics selected the lowest score; cutoff ignored refit=False; update_params defaults differed); they were repaired in /repo "
+              "(3fa437d, 2c34b70, 2b9e886) and are now proved at full strength. "
               "The model is tied to the code by a differential correspondence and the property text is evaluated as an oracle on every real run.")
 LEVEL_NOTE = ("Trusted: Lean kernel, axioms propext/Classical.choice/Quot.sound, the model's faithfulness as exercised by the correspondence, pandas rank/argmin/mean and "
               "sklearn ParameterGrid semantics (modelled), harness + compat layer. evaluate() itself is C07's; here each row is compared with an independent real evaluate() run.")
@@ -818,10 +818,6 @@ def _random_case(rng):
             "strategy": rng.choice(["refit", "refit", "update"]), "refit": rng.random() < 0.8,
             "fitfh": rng.choice([None, None, [1, 2], [1]]), "ops": _rand_ops(rng), "tab": {}}
     if fc == "ttfnaive":
-        # refit only: under strategy="update" TransformedTargetForecaster.update feeds the raw series to the inner
-        # forecaster (C09's finding), scores then shift by +-t__c per fold and candidates become mathematically tied
-        # but not float-tied (exact-rational model vs float pandas would rank them differently)
-        case["strategy"] = "refit"
         case["cv"]["wl"] = max(case["cv"]["wl"], 4)
         if case["cv"]["iw"] is not None and case["cv"]["iw"] <= case["cv"]["wl"]:
             case["cv"]["iw"] = None
